@@ -279,7 +279,7 @@ func (t *terminal) handleCmdCSI(r escapeReader) bool {
 	}
 
 	// This cannot escape to the heap! Use append([]int(nil), params...) instead of params to make a copy if needed, such as to debug calls
-	var paramStore [8]int
+	var paramStore [32]int
 	paramCount := 0
 	param := 0
 	paramSet := false
